@@ -1,4 +1,282 @@
-(* Path.v -- stub; the model that belongs here is being written. *)
+(* Path.v -- model of the path handling behind py7zr's member-name checks (property C16).
+
+   Runtime modelled: Linux, CPython 3.12 pathlib (PurePosixPath) and posixpath.
+   Strings are lists of code points.  A pathlib path object is modelled the way 3.12 stores it:
+   the list of raw segments it was built from (`_raw_paths`); everything else (`parts`, `str`,
+   `is_absolute`, `joinpath`, `relative_to`) is computed from the raw segments exactly as
+   pathlib does (posixpath.join, posixpath.splitroot, split on '/', drop '' and '.').
+
+   Code modelled (py7zr/helpers.py): canonical_path, is_relative_to, is_path_valid,
+   check_archive_path;  (py7zr/py7zr.py): SevenZipFile._sanitize_archive_arcname, the file name
+   stored by _make_file_info/_make_file_info_from_name (pathlib.Path(arcname).as_posix()).
+
+   Only definitions and the dispatcher here; proofs are in PathProofs.v. *)
 From P7 Require Import Prelude.
 Open Scope Z_scope.
-Definition path_dispatch (fn : Z) (a : tree) : tree := TL [TI (-2)].
+
+Definition str := list Z.
+
+Definition isnil {A} (l : list A) : bool := match l with [] => true | _ => false end.
+
+Fixpoint str_eqb (a b : str) : bool :=
+  match a, b with
+  | [], [] => true
+  | x :: a', y :: b' => (x =? y) && str_eqb a' b'
+  | _, _ => false
+  end.
+
+Definition s_dot : str := [46].
+Definition s_dotdot : str := [46; 46].
+Definition s_slash : str := [47].
+
+(* ---------------------------------------------------------------- str primitives *)
+(* s.startswith('/') *)
+Definition startswith_slash (s : str) : bool :=
+  match s with c :: _ => c =? 47 | [] => false end.
+
+(* s.endswith('/') *)
+Fixpoint endswith_slash (s : str) : bool :=
+  match s with
+  | [] => false
+  | c :: r => match r with [] => c =? 47 | _ => endswith_slash r end
+  end.
+
+(* s.lstrip('/')   (py7zr passes "/" + os.sep = "//": the same character set) *)
+Fixpoint lstrip_slash (s : str) : str :=
+  match s with
+  | c :: r => if c =? 47 then lstrip_slash r else s
+  | [] => []
+  end.
+
+(* s.split('/') : never the empty list *)
+Fixpoint split (s : str) : list str :=
+  match s with
+  | [] => [[]]
+  | c :: r =>
+      if c =? 47 then [] :: split r
+      else match split r with
+           | h :: t => (c :: h) :: t
+           | [] => [[c]]
+           end
+  end.
+
+(* '/'.join(l) *)
+Fixpoint join_slash (l : list str) : str :=
+  match l with
+  | [] => []
+  | c :: r => match r with [] => c | _ => c ++ 47 :: join_slash r end
+  end.
+
+(* ---------------------------------------------------------------- posixpath *)
+(* one step of posixpath.join's loop: path, b -> new path *)
+Definition posix_join1 (path b : str) : str :=
+  if startswith_slash b then b
+  else if isnil path || endswith_slash path then path ++ b
+  else path ++ 47 :: b.
+
+(* posixpath.join(a, ps...) *)
+Definition posix_join (a : str) (ps : list str) : str := fold_left posix_join1 ps a.
+
+(* posixpath.splitroot(p) without the (always empty) drive: (root, tail-string) *)
+Definition splitroot (p : str) : str * str :=
+  match p with
+  | [] => ([], p)
+  | c0 :: r0 =>
+      if c0 =? 47 then
+        match r0 with
+        | [] => ([47], r0)
+        | c1 :: r1 =>
+            if c1 =? 47 then
+              match r1 with
+              | [] => ([47; 47], r1)
+              | c2 :: _ => if c2 =? 47 then ([47], r0) else ([47; 47], r1)
+              end
+            else ([47], r0)
+        end
+      else ([], p)
+  end.
+
+(* ---------------------------------------------------------------- pathlib.PurePosixPath 3.12 *)
+Definition ppath := list str.          (* _raw_paths *)
+
+(* x kept by `[x for x in rel.split(sep) if x and x != '.']` *)
+Definition keep_comp (c : str) : bool := negb (isnil c) && negb (str_eqb c s_dot).
+
+(* PurePath._parse_path *)
+Definition parse_str (path : str) : str * list str :=
+  if isnil path then ([], [])
+  else let '(root, rel) := splitroot path in (root, filter keep_comp (split rel)).
+
+(* the string PurePath._load_parts parses *)
+Definition raw_path (p : ppath) : str :=
+  match p with
+  | [] => []
+  | a :: ps => match ps with [] => a | _ => posix_join a ps end
+  end.
+
+Definition pp_parse (p : ppath) : str * list str := parse_str (raw_path p).
+
+(* PurePath.parts *)
+Definition pp_parts (p : ppath) : list str :=
+  let '(root, tail) := pp_parse p in if isnil root then tail else root :: tail.
+
+Definition posix_parts (s : str) : list str := pp_parts [s].
+
+(* PurePath.is_absolute, posix branch: any raw segment starts with '/' *)
+Definition pp_is_absolute (p : ppath) : bool := existsb startswith_slash p.
+Definition is_absolute (s : str) : bool := pp_is_absolute [s].
+
+(* PurePath.joinpath(seg) with a str argument / with a path argument *)
+Definition pp_joinpath (p : ppath) (seg : str) : ppath := p ++ [seg].
+Definition pp_joinpath_p (p q : ppath) : ppath := p ++ q.
+
+(* PurePath._format_parsed_parts (posix: drive '' and splitdrive(...)[0] = '' always) *)
+Definition format_parsed (root : str) (tail : list str) : str :=
+  if negb (isnil root) then root ++ join_slash tail else join_slash tail.
+
+(* str(path) = as_posix() on posix *)
+Definition pp_str (p : ppath) : str :=
+  let '(root, tail) := pp_parse p in
+  let s := format_parsed root tail in if isnil s then s_dot else s.
+
+Fixpoint prefixb (a l : list str) : bool :=
+  match a, l with
+  | [], _ => true
+  | x :: a', y :: l' => str_eqb x y && prefixb a' l'
+  | _ :: _, [] => false
+  end.
+
+(* PurePath.is_relative_to(other) (one argument): `other == self or other in self.parents`;
+   equality of paths is equality of str(), which for parsed posix paths is equality of
+   (root, tail); the parents are the proper prefixes of the tail under the same root *)
+Definition pp_is_relative_to (self other : ppath) : bool :=
+  let '(r1, t1) := pp_parse self in
+  let '(r2, t2) := pp_parse other in
+  str_eqb r1 r2 && prefixb t2 t1.
+
+(* ---------------------------------------------------------------- py7zr/helpers.py *)
+(* body of the loop of canonical_path; the stack is kept top-first *)
+Definition canon_step (st : list str) (p : str) : list str :=
+  if negb (str_eqb p s_dotdot) || isnil st then p :: st
+  else match st with
+       | top :: rest =>
+           if str_eqb top s_dotdot then p :: st          (* '../' + '../' -> '../../' *)
+           else if str_eqb top s_slash then st            (* '/' + '../' -> '/' *)
+           else rest                                      (* 'foo/boo/' + '..' -> 'foo/' *)
+       | [] => p :: st
+       end.
+
+(* canonical_path(target) = pathlib.Path( *stack ) *)
+Definition canonical_path (target : ppath) : ppath :=
+  rev (fold_left canon_step (pp_parts target) []).
+
+(* is_relative_to(my, other): my.relative_to(canonical_path(other)) raises ValueError or not;
+   relative_to without walk_up raises exactly when not my.is_relative_to(...) *)
+Definition h_is_relative_to (my other : ppath) : bool :=
+  pp_is_relative_to my (canonical_path other).
+
+(* is_path_valid(target, parent); cwd = os.getcwd() *)
+Definition is_path_valid (cwd : str) (target parent : ppath) : bool :=
+  if pp_is_absolute parent then h_is_relative_to (canonical_path target) parent
+  else h_is_relative_to (canonical_path target) (pp_joinpath_p [cwd] parent).
+
+(* "/foo/boo/fuga/hoge/a90sufoiasj09/dafj08sajfa/" *)
+Definition dummy_parent : str :=
+  [47; 102; 111; 111; 47; 98; 111; 111; 47; 102; 117; 103; 97; 47; 104; 111; 103; 101; 47;
+   97; 57; 48; 115; 117; 102; 111; 105; 97; 115; 106; 48; 57; 47;
+   100; 97; 102; 106; 48; 56; 115; 97; 106; 102; 97; 47].
+
+Definition check_archive_path_cwd (cwd : str) (arcname : str) : bool :=
+  if pp_is_absolute [arcname] then false
+  else is_path_valid cwd (pp_joinpath [dummy_parent] arcname) [dummy_parent].
+
+Definition check_archive_path (arcname : str) : bool := check_archive_path_cwd [47] arcname.
+
+(* ---------------------------------------------------------------- py7zr/py7zr.py *)
+Definition is_ascii_alpha (c : Z) : bool :=
+  ((65 <=? c) && (c <=? 90)) || ((97 <=? c) && (c <=? 122)).
+
+(* re.match("^[a-zA-Z]:", s) is not None *)
+Definition drive_prefix (s : str) : bool :=
+  match s with
+  | c0 :: c1 :: _ => is_ascii_alpha c0 && (c1 =? 58)
+  | _ => false
+  end.
+
+Definition strip_leading (s : str) : str := if startswith_slash s then lstrip_slash s else s.
+
+(* SevenZipFile._sanitize_archive_arcname on the str it works on (os.sep = '/');
+   Err = AbsolutePathError *)
+Definition sanitize_archive_arcname (path : str) : res str :=
+  let p1 := strip_leading path in
+  let p2 := if drive_prefix p1 then strip_leading (skipn 2 p1) else p1 in
+  if startswith_slash p2 || drive_prefix p2 then Err EOther else Ok p2.
+
+(* file name stored for arcname: pathlib.Path(arcname).as_posix() *)
+Definition make_name (arcname : str) : str := pp_str [arcname].
+
+(* name stored by write(file, arcname=None): file is a str, or a Path whose str() is taken first *)
+Definition write_name_str (file : str) : res str :=
+  do r <- sanitize_archive_arcname file; Ok (make_name r).
+Definition write_name_path (file : ppath) : res str := write_name_str (pp_str file).
+
+(* ---------------------------------------------------------------- the independent definition *)
+(* walk the components: '' and '.' skipped, '..' one level up, anything else one level down;
+   false as soon as the depth would be negative *)
+Fixpoint spec_walk (cs : list str) (depth : Z) : bool :=
+  match cs with
+  | [] => true
+  | c :: r =>
+      if isnil c || str_eqb c s_dot then spec_walk r depth
+      else if str_eqb c s_dotdot then
+        (if depth - 1 <? 0 then false else spec_walk r (depth - 1))
+      else spec_walk r (depth + 1)
+  end.
+
+Definition spec_ok (name : str) : bool :=
+  negb (startswith_slash name) && spec_walk (split name) 0.
+
+(* ---------------------------------------------------------------- dispatcher *)
+Definition t_str (s : str) : tree := t_bytes s.
+Definition t_strs (l : list str) : tree := TL (map t_str l).
+Definition of_str (t : tree) : str := of_bytes t.
+Definition of_strs (t : tree) : list str := map of_str (of_TL t).
+
+Definition name_row (s : str) : tree :=
+  TL [t_strs (posix_parts s); t_bool (is_absolute s); t_bool (check_archive_path s); t_bool (spec_ok s);
+      t_res t_str (sanitize_archive_arcname s); t_str (make_name s)].
+
+Definition path_dispatch (fn : Z) (a : tree) : tree :=
+  match fn with
+  (* FN 100 posix_parts : str -> list str *)
+  | 100 => t_strs (posix_parts (of_str a))
+  (* FN 101 is_absolute : list str (raw segments) -> bool *)
+  | 101 => t_bool (pp_is_absolute (of_strs a))
+  (* FN 102 pp_parts : list str (raw segments) -> list str *)
+  | 102 => t_strs (pp_parts (of_strs a))
+  (* FN 103 canonical_path : list str (raw segments) -> list str (raw segments of the result) *)
+  | 103 => t_strs (canonical_path (of_strs a))
+  (* FN 104 h_is_relative_to : (my other) raw segments -> bool *)
+  | 104 => t_bool (h_is_relative_to (of_strs (tnth a 0)) (of_strs (tnth a 1)))
+  (* FN 105 is_path_valid : (cwd target parent) -> bool *)
+  | 105 => t_bool (is_path_valid (of_str (tnth a 0)) (of_strs (tnth a 1)) (of_strs (tnth a 2)))
+  (* FN 106 check_archive_path : str -> bool *)
+  | 106 => t_bool (check_archive_path (of_str a))
+  (* FN 107 sanitize_archive_arcname : str -> res str *)
+  | 107 => t_res t_str (sanitize_archive_arcname (of_str a))
+  (* FN 108 make_name : str -> str *)
+  | 108 => t_str (make_name (of_str a))
+  (* FN 109 spec_ok : str -> bool *)
+  | 109 => t_bool (spec_ok (of_str a))
+  (* FN 110 pp_str : list str (raw segments) -> str *)
+  | 110 => t_str (pp_str (of_strs a))
+  (* FN 111 name_rows : list str -> list (parts is_absolute check_archive_path spec_ok sanitize make_name) *)
+  | 111 => TL (map name_row (of_strs a))
+  (* FN 112 pp_is_relative_to : (self other) raw segments -> bool *)
+  | 112 => t_bool (pp_is_relative_to (of_strs (tnth a 0)) (of_strs (tnth a 1)))
+  (* FN 113 write_name_path : list str (raw segments of file) -> res str *)
+  | 113 => t_res t_str (write_name_path (of_strs a))
+  (* FN 114 posix_join : (a ps) -> str *)
+  | 114 => t_str (posix_join (of_str (tnth a 0)) (of_strs (tnth a 1)))
+  | _ => TL [TI (-2)]
+  end.
